@@ -505,6 +505,11 @@ class SInt(SNum):
         return NotImplemented
 
 
+class SNpInt(SInt):
+    """a numpy integer scalar (numpy.int64(...)): behaves like an integer but is NOT an instance of the builtin int"""
+    __slots__ = ()
+
+
 class SReal(SNum):
     __slots__ = ()
 
